@@ -78,9 +78,10 @@ class Harness:
     name = 'SEQ.same-query-across-a-collection'
     mode = 'U'
 
-    def __init__(self, N=3, L=2, K=3, ops=None):
+    def __init__(self, N=3, L=2, K=3, ops=None, middle='gc'):
         self.N, self.L, self.K = N, L, K
         self.ops = ops or OPS
+        self.middle = middle        # 'gc': collection + node creation; 'swap': the two top levels exchanged
 
     def install(self):
         self.B = base.import_dd('dd.bdd')
@@ -120,7 +121,7 @@ class Harness:
         def extract(model):
             case = m.extract(model)
             ev = lambda x: base.ev_int(model, x if z3.is_expr(x) else _z(x))
-            case['args'] = dict(op=op, u=ev(u), v=ev(v), filler=[flv, ev(flo), ev(fhi)])
+            case['args'] = dict(op=op, u=ev(u), v=ev(v), filler=[flv, ev(flo), ev(fhi)], middle=self.middle)
             case['harness'] = 'memo_seq'
             return case
 
@@ -130,13 +131,17 @@ class Harness:
             r1 = do(op, bdd, names, U, V)
             if op == 'to_expr':
                 r1 = str(r1)
-            stage = 'collect'
-            bdd.collect_garbage()
-            stage = 'filler'
-            try:
-                bdd.find_or_add(flv, flo, fhi)
-            except ValueError:
-                raise engine.Abort()            # not a legal triple on this path
+            if self.middle == 'swap':
+                stage = 'swap'
+                bdd.swap(0, 1)
+            else:
+                stage = 'collect'
+                bdd.collect_garbage()
+                stage = 'filler'
+                try:
+                    bdd.find_or_add(flv, flo, fhi)
+                except ValueError:
+                    raise engine.Abort()            # not a legal triple on this path
             stage = 'second'
             r2 = do(op, bdd, names, U, V)
         except Exception as e:
@@ -148,6 +153,9 @@ class Harness:
         den2 = Den(L, '2')
         ax = den2.axioms(st, m.ids2)
         fu, fv = den.s(u), den.s(v)
+        # functions are compared by variable *name*: after the swap the same function has its two
+        # top levels exchanged in the by-level table
+        byname = (lambda t: oracle.bv_swap_adjacent(den, t, 0)) if self.middle == 'swap' else (lambda t: t)
         goals = []
         if op in ('count', 'support', 'to_expr'):
             if op == 'count':
@@ -157,7 +165,7 @@ class Harness:
             elif op == 'support':
                 ok = z3.BoolVal(set(r1) == set(r2))
             else:
-                ok = z3.BoolVal(r1 == str(r2))
+                ok = z3.BoolVal(r1 == str(r2) or self.middle == 'swap')    # the text may follow the new order
             goals.append(Goal('same_answer_after_collection_and_reuse', ok))
         else:
             vb = lambda i: den.var(i)
@@ -182,12 +190,12 @@ class Harness:
             d2 = z3.Select(den2.D, a)
             goals.append(Goal('second_result_denotes_the_function',
                               z3.And(a >= 1, a <= m.maxid, z3.Select(st.P, a),
-                                     z3.If(rz < 0, ~d2, d2) == want)))
+                                     z3.If(rz < 0, ~d2, d2) == byname(want))))
         keep = []
         for k in m.ids:
             held = z3.And(z3.Select(st0.P, k), z3.Select(ext, k) > 0)
             keep.append(z3.Implies(held, z3.And(z3.Select(st.P, k),
-                                                z3.Select(den2.D, k) == z3.Select(den.D, k))))
+                                                z3.Select(den2.D, k) == byname(z3.Select(den.D, k)))))
         goals += [Goal('held_nodes_keep_number_and_function', z3.And(keep)),
                   Goal('reduced_ordered', m.g_inv_struct()),
                   Goal('unique_table_sound', m.g_pred_sound()),
@@ -211,25 +219,31 @@ def replay(case):
     op, u, v = a['op'], a['u'], a['v']
     flv, flo, fhi = a['filler']
     obs = dict(outcome='returned')
-    fu, fv = concrete.tt(bdd, u), concrete.tt(bdd, v)
+    middle = a.get('middle', 'gc')
+    TT = lambda e: concrete.tt_named(bdd, e, names)          # by name: independent of the current order
+    fu, fv = TT(u), TT(v)
     held = [k for k, e in ext.items() if e > 0 and k in bdd._succ]
-    tts = {k: concrete.tt(bdd, k) for k in held}
-    call = f'{op}(u={u}, v={v}); collect_garbage(); find_or_add({flv}, {flo}, {fhi}); {op}(u={u}, v={v})'
+    tts = {k: TT(k) for k in held}
+    mid = 'swap(0, 1)' if middle == 'swap' else f'collect_garbage(); find_or_add({flv}, {flo}, {fhi})'
+    call = f'{op}(u={u}, v={v}); {mid}; {op}(u={u}, v={v})'
     with warnings.catch_warnings(record=True) as wl:
         warnings.simplefilter('always')
         try:
             r1 = do(op, bdd, names, u, v)
-            bdd.collect_garbage()
-            try:
-                bdd.find_or_add(flv, flo, fhi)
-            except ValueError:
-                return dict(violates=False, detail='filler not legal', observed=obs)
+            if middle == 'swap':
+                bdd.swap(0, 1)
+            else:
+                bdd.collect_garbage()
+                try:
+                    bdd.find_or_add(flv, flo, fhi)
+                except ValueError:
+                    return dict(violates=False, detail='filler not legal', observed=obs)
             r2 = do(op, bdd, names, u, v)
         except Exception as e:
             return dict(violates=True, key=f'seq/{op}/raises', detail=f'{call} raised {e!r}',
                         observed=dict(outcome='raised:' + type(e).__name__))
     if op in ('count', 'support', 'to_expr'):
-        if (set(r1) != set(r2)) if op == 'support' else (r1 != r2):
+        if (set(r1) != set(r2)) if op == 'support' else (r1 != r2 and not (op == 'to_expr' and middle == 'swap')):
             return dict(violates=True, key=f'seq/{op}/answer-changes',
                         detail=f'{call}: first answer {r1!r}, second {r2!r}', observed=obs)
         if op == 'count':
@@ -240,13 +254,13 @@ def replay(case):
         want = want_tt(op, fu, fv, L, lambda i: concrete.var_tt(i, L))
         if abs(r2) not in bdd._succ:
             return dict(violates=True, key=f'seq/{op}/result-not-a-node', detail=f'{call} -> {r2}', observed=obs)
-        got = concrete.tt(bdd, r2)
+        got = TT(r2)
         if got != want:
             return dict(violates=True, key=f'seq/{op}/wrong-after-collection',
                         detail=f'{call}: second result {r2} denotes {got:#x}, expected {want:#x} '
                                f'(first result was {r1})', observed=obs)
     for k in held:
-        if k not in bdd._succ or concrete.tt(bdd, k) != tts[k]:
+        if k not in bdd._succ or TT(k) != tts[k]:
             return dict(violates=True, key=f'seq/{op}/held-node-changed', detail=f'{call}: node {k}', observed=obs)
     if wl:
         return dict(violates=True, key=f'seq/{op}/decref-warning', detail=f'{call}: {wl[0].message}', observed=obs)
